@@ -39,7 +39,14 @@ func evilName(r *Rand, real []string, outer string) string {
 		}
 		return "x"
 	}
-	switch r.Intn(16) {
+	switch r.Intn(19) {
+	case 16:
+		// a sibling of the root whose name begins with the root's name
+		return strings.Repeat("../", r.Range(1, 4)) + "root.bak/canary.txt"
+	case 17:
+		return outer + "/root.bak/planted"
+	case 18:
+		return "../rootx"
 	case 0:
 		return ".."
 	case 1:
@@ -105,8 +112,12 @@ func c18Exec(x *Ctx) {
 	os.MkdirAll(filepath.Join(u.Outer, "canarydir"), 0o755)
 	os.WriteFile(filepath.Join(u.Outer, "canarydir", "inside.txt"), []byte(canaryText+"-2"), 0o644)
 	os.WriteFile(filepath.Join(u.Base, "above.txt"), []byte(canaryText+"-3"), 0o644)
+	os.MkdirAll(filepath.Join(u.Outer, "root.bak"), 0o755) // siblings whose names begin with the root's
+	os.WriteFile(filepath.Join(u.Outer, "root.bak", "canary.txt"), []byte(canaryText+"-4"), 0o644)
+	os.WriteFile(filepath.Join(u.Outer, "rootx"), []byte(canaryText+"-5"), 0o644)
 	outside := map[uint64]string{}
-	for _, p := range []string{u.Outer, canary, filepath.Join(u.Outer, "canarydir"), filepath.Join(u.Outer, "canarydir", "inside.txt"), u.Base, filepath.Join(u.Base, "above.txt"), "/", "/etc", "/etc/passwd", filepath.Dir(u.Base)} {
+	for _, p := range []string{u.Outer, canary, filepath.Join(u.Outer, "canarydir"), filepath.Join(u.Outer, "canarydir", "inside.txt"), u.Base, filepath.Join(u.Base, "above.txt"), "/", "/etc", "/etc/passwd", filepath.Dir(u.Base),
+		filepath.Join(u.Outer, "root.bak"), filepath.Join(u.Outer, "root.bak", "canary.txt"), filepath.Join(u.Outer, "rootx")} {
 		if fi, err := os.Lstat(p); err == nil {
 			outside[fi.Sys().(*syscall.Stat_t).Ino] = p
 		}
